@@ -92,6 +92,16 @@ class Scenario:
         if rng.random() < comp:
             o["compress"] = True
             self.cparams = self.compression(sopts, copts)
+        if o["compress"] and self.profile == "c12" and rng.random() < 0.4:
+            # the client offers further compression extensions around the one the server will pick (any order)
+            from autobahn.websocket.compress import PERMESSAGE_COMPRESSION_EXTENSION as X
+            mine = copts["perMessageCompressionOffers"]
+            decoys = [X[k]["Offer"]() for k in sorted(X) if not isinstance(mine[0], X[k]["Offer"])]
+            rng.shuffle(decoys)
+            offers = mine + decoys[:rng.randint(1, max(1, len(decoys)))]
+            rng.shuffle(offers)
+            copts["perMessageCompressionOffers"] = offers
+            self.cparams["offered"] = [type(x).__name__ for x in offers]
         self.limit_who = None
         if self.profile == "c16" or (self.profile == "c01" and not o["compress"] and rng.random() < 0.15):
             w = rng.choice(["C", "S"])
@@ -116,6 +126,9 @@ class Scenario:
         ok = self.pair.handshake()
         assert ok, "handshake failed"
         assert (self.pair.s._perMessageCompress is not None) == o["compress"], "compression negotiation mismatch"
+        if o["compress"] and type(self.pair.s._perMessageCompress) is not type(self.pair.c._perMessageCompress):
+            self.problems.append(dict(scenario=-1, problem="server runs %s, client runs %s" % (
+                type(self.pair.s._perMessageCompress).__name__, type(self.pair.c._perMessageCompress).__name__)))
         self.pair.ct.take(0)
         # handshake octets are not frames
         self.parse_pos["C"] = len(self.pair.ct.written)
